@@ -58,6 +58,7 @@ class Flow:
 
     def __init__(self, ef, fi, param='self', consts=None):
         self.ef, self.fi, self.param = ef, fi, param
+        self.consts = dict(consts or {})
         self.cfg = cfg = ef.cfg(fi)
         self._mut_cache = {}
         self.pair_calls = {}     # node id -> [(kind 'acq'|'rel', acquire name, call)]
@@ -71,7 +72,16 @@ class Flow:
                         self.pair_calls.setdefault(n.id, []).append(('acq', cn, x))
                     elif cn in RELEASE_OF and param in _first_arg_roots(ef, fi, x):
                         self.pair_calls.setdefault(n.id, []).append(('rel', RELEASE_OF[cn], x))
-        self.fl = ConstFlow(cfg, dict(consts or {}), self._hook)
+        keep = set()
+        for evs in self.pair_calls.values():
+            for kind, acq, call in evs:
+                if kind == 'acq' and acq in SKIP_WHEN_EMPTY:
+                    keep |= {a.id for a in call.args[1:2] if isinstance(a, ast.Name)}
+        for n in cfg.nodes:
+            if n.kind == 'stmt' and isinstance(n.ast, ast.Assign) and isinstance(n.ast.value, ast.Call) and \
+                    call_name(n.ast.value) in SKIP_WHEN_EMPTY and isinstance(n.ast.targets[0], ast.Tuple):
+                keep |= {t.id for t in n.ast.targets[0].elts if isinstance(t, ast.Name) and t.id != '_'}
+        self.fl = ConstFlow(cfg, dict(consts or {}), self._hook, keep)
 
     def _hook(self, node, facts):
         if node.kind not in ('stmt', 'test', 'iter', 'with', 'case'):
@@ -80,8 +90,15 @@ class Flow:
         for kind, acq, call in self.pair_calls.get(node.id, ()):
             if kind == 'acq':
                 argname = None
-                if acq in SKIP_WHEN_EMPTY and len(call.args) >= 2 and isinstance(call.args[1], ast.Name):
-                    argname = call.args[1].id
+                if acq in SKIP_WHEN_EMPTY:
+                    # names whose emptiness means "nothing was moved": the list handed in, and the lists handed back
+                    names = []
+                    if len(call.args) >= 2 and isinstance(call.args[1], ast.Name):
+                        names.append(call.args[1].id)
+                    st = node.ast
+                    if isinstance(st, ast.Assign) and st.value is call and isinstance(st.targets[0], ast.Tuple):
+                        names += [t.id for t in st.targets[0].elts if isinstance(t, ast.Name) and t.id != '_']
+                    argname = tuple(names) or None
                 upd['$tmp:' + acq] = lit((call.lineno, argname))
             else:
                 upd['$tmp:' + acq] = None
@@ -94,7 +111,7 @@ class Flow:
             if key not in self._mut_cache:
                 self._mut_cache[key] = self.ef.node_mutates(self.fi, self.cfg, node, self.param,
                                                             [{k: v for k, v in facts.items() if k[:1] != '$'}],
-                                                            ignore=set(PAIRS) | set(RELEASE_OF))
+                                                            ignore=set(PAIRS) | set(RELEASE_OF), consts=self.consts)
             hits = self._mut_cache[key]
             if hits:
                 upd['$mut'] = lit(getattr(hits[0], 'lineno', node.lineno))
@@ -112,9 +129,13 @@ class Flow:
                 acq = k[5:]
                 line, argname = v[1]
                 if argname is not None:
-                    # the list is known empty on this path (`if body:` false): nothing to restore
-                    av = d.get(argname)
-                    if av is not None and (av == ('falsy',) or (av[0] == 'c' and not av[1])):
+                    # one of the lists involved is known empty on this path (`if body:` / `if keywords:` false): nothing to restore
+                    skip = False
+                    for nm in (argname if isinstance(argname, tuple) else (argname,)):
+                        av = d.get(nm)
+                        if av is not None and (av == ('falsy',) or (av[0] == 'c' and not av[1])):
+                            skip = True
+                    if skip:
                         continue
                 out[acq] = (line, argname)
         return out
